@@ -449,6 +449,39 @@ theorem mapper_dispatch_consistent (rx : Rx) (hs : RxSound rx) (req : Option Byt
     simp [this, hmap]
   · rw [appMain_eq_main rx gen_fixed gen_method hs]; exact hmain
 
+/-- **`util::stackbuf` collects all bytes, in order**, however many there are and wherever the stack/heap and the
+doubling boundaries fall (byte 129, 257, 513, … of a URL included), for every on-stack size ≥ 1. -/
+theorem stackbuf_collects_all_bytes_in_order (N : Nat) (hN : 1 ≤ N) (s : Bytes) :
+    (SBuf.write N (SBuf.init N) s).data = s := by
+  have := SBuf.write_data N hN (by decide) s (SBuf.init N) (by simp [SBuf.init]) (by intro _; rfl) (by simpa [SBuf.init] using hN)
+  simpa [SBuf.init] using this
+
+/-- hence in the default configuration (`misc.invalid_url_throws = false`) `map` produces the same URL as in the throwing one,
+cut at its first NUL (`output << temp_buf.c_str()`), and the fixed text on any error -/
+theorem mapUrlNT_eq (ctx : MCtx) (p : MPos) (key : Bytes) (params : List Bytes) :
+    mapUrlNT ctx p key params =
+      match mapUrl ctx p key params with
+      | .ok u => cstr u
+      | .error _ => invalidUrlText := by
+  unfold mapUrlNT
+  cases mapUrl ctx p key params with
+  | error e => rfl
+  | ok u => simp only [stackbuf_collects_all_bytes_in_order Gen.sbDefaultSize (by decide) u]
+
+/-- `mapper_dispatch_consistent` for the default (non-throwing) configuration -/
+theorem mapper_dispatch_consistent_default_config (rx : Rx) (hs : RxSound rx) (req : Option Bytes) (ctx : MCtx) (p p' : MPos) (key rk : Bytes)
+    (kws : List Bytes) (params : List Bytes) (cur : Opts) (anc : List Opts) (expected : List Event)
+    (hkey : mapperForKey p (cstr key) = .ok (p', rk, kws)) (hk : kws.length ≤ params.length)
+    (hc : Consistent rx req ctx (mkOverrides kws (params.take kws.length)) p' cur anc rk (params.drop kws.length) expected = true) :
+    ∃ u, mapUrlNT ctx p key params = cstr (ctx.root ++ u) ∧
+      appMain rx Gen.quirks req (rootOf cur anc) u = expected := by
+  obtain ⟨u, h1, h2⟩ := mapper_dispatch_consistent rx hs req ctx p p' key rk kws params cur anc expected hkey hk hc
+  exact ⟨u, by rw [mapUrlNT_eq, h1], h2⟩
+
+/-- 300 bytes through a 4-byte buffer: seven doublings, nothing lost -/
+example : (SBuf.write 4 (SBuf.init 4) (List.replicate 300 65 ++ [66])).data = List.replicate 300 65 ++ [66] ∧
+    (SBuf.write 4 (SBuf.init 4) (List.replicate 300 65 ++ [66])).cap = 512 := by decide +kernel
+
 /-! ## non-vacuity: a concrete engine and a depth-3 site meeting every hypothesis -/
 
 section Examples
